@@ -59,6 +59,21 @@ pub fn fmt(m: &mut M, r: &mut Rng, n: u64) {
             }
         }
     }
+    // entry points outside the twenty properties (classification, decode): behaviour recorded as X01
+    for _ in 0..(n / 4 + 1) {
+        m.group("extras");
+        load_text_case(m, r, 1);
+        if r.below(5) == 0 {
+            let (op1, a1, b1) = *r.pick(&[("new_add", f64::INFINITY, 1.0), ("new_add", f64::NAN, 1.0), ("new_mul", 1e300, 1e300), ("new_add", 0.0, -0.0)]);
+            m.call("arith", op1, "inh", Some(1), &[A::F(a1), A::F(b1)]);
+        }
+        for sp in ["Float", "FloatCore"] {
+            m.call("text", "classify", sp, None, &[A::R(1)]);
+        }
+        for op in ["is_nan", "is_infinite", "is_finite", "is_normal", "is_zero", "integer_decode"] {
+            m.call("text", op, "Float", None, &[A::R(1)]);
+        }
+    }
     m.group("misc_text");
     m.call("text", "err_display", "fmt", None, &[A::S("conversion".into())]);
     m.call("text", "err_display", "fmt", None, &[A::S("parse".into())]);
